@@ -286,7 +286,11 @@ def _run(sc, cfg):
             res.violate("screen", where, "screen %r, stacked sections %r" % (got_rows[-8:], want_rows[-8:]))
             break  # the screen and the component's bookkeeping have parted; later steps add nothing
         where = k if not (k == "clear" and op[2] is not None) else "clear(n)"
-        if (screen.r, screen.c) != (total_rows(), 0):
+        # the cursor rests on the row below the stacked sections (or, for an implementation that
+        # delays the last newline, at the end of the last row)
+        tr = total_rows()
+        at_end_of_last = tr > 0 and screen.r == tr - 1 and (screen.pending or screen.c == len(screen.row_text(tr - 1)))
+        if (screen.r, screen.c) != (tr, 0) and not at_end_of_last:
             res.violate("cursor", where, "cursor at row %d column %d after the operation, the stacked sections end at row %d" % (screen.r, screen.c, total_rows()))
             break
         if screen.clamped_up:
